@@ -1,13 +1,80 @@
-(* C03 — inheritance chain from filenames and $parent. Statements are extended as proofs land. *)
+(* C03 — inheritance chain is resolved from filenames and $parent, base first.
+   Statements only; proofs in Proofs/FilesProofs.v. The file system is abstract (Model.Files): a single directory of
+   regular files (already decoded) and symbolic links; names without '/'. *)
 From Coq Require Import String Ascii List ZArith.
-From Bkl Require Import Model.Value Model.Str Model.Files.
+From Bkl Require Import Model.Value Model.Str Model.Eval Model.Parser Model.Files Proofs.FilesProofs.
 Import ListNotations.
 Local Open Scope string_scope.
 Local Open Scope list_scope.
 
-(* $parent: false / null in a file without a $parent name means: no parent at all *)
-Theorem C03_no_parent : forall fmts fs path docs docs' ps,
-  parent_directive docs = Ok (docs', ps, true) -> ps = [] ->
-  parents_of fmts fs path docs = Ok (docs', [], path).
-Proof. intros fmts fs path docs docs' ps H Hp. unfold parents_of. rewrite H. cbn. subst. reflexivity. Qed.
+(* $parent (a name, a list, a wildcard) overrides the symlink and the filename rule *)
+Theorem C03_directive_wins : forall fmts fs path docs docs' ps globs,
+  parent_directive docs = Ok (docs', ps, false) -> ps <> [] -> forallb in_model_name ps = true ->
+  map_res (fun p => match glob_files fmts fs p with [] => Err EMissingFile | l => Ok l end) ps = Ok globs ->
+  parents_of fmts fs path docs = Ok (docs', concat globs, path).
+Proof. exact parents_directive. Qed.
+Print Assumptions C03_directive_wins.
+
+(* $parent: false / null: no parent at all; together with a name it is a conflict *)
+Theorem C03_no_parent : forall fmts fs path docs docs',
+  parent_directive docs = Ok (docs', [], true) -> parents_of fmts fs path docs = Ok (docs', [], path).
+Proof. exact parents_none. Qed.
 Print Assumptions C03_no_parent.
+
+(* without a directive a symlink inherits from its target's name, an ordinary file from its own *)
+Theorem C03_symlink_then_filename : forall fmts fs path docs docs' real d,
+  parent_directive docs = Ok (docs', [], false) -> resolve (link_fuel fs) fs path = Some (real, d) ->
+  parents_of fmts fs path docs = bind (parents_from_filename fmts fs real) (fun ps => Ok (docs', ps, real)).
+Proof. exact parents_filename. Qed.
+Print Assumptions C03_symlink_then_filename.
+
+(* a.b.c.<ext> inherits from a.b under any supported extension; a missing layer is an error, never skipped *)
+Theorem C03_missing : forall fmts fs name e2 e1 r,
+  rev (split_on "."%char name) = e1 :: e2 :: r -> r <> [] -> find_file fmts fs (join "." (rev r)) = None ->
+  parents_from_filename fmts fs name = Err EMissingFile.
+Proof. exact filename_missing. Qed.
+Print Assumptions C03_missing.
+
+(* a * wildcard does not cross dots, and only files with a supported extension are layers *)
+Theorem C03_wildcard : forall fmts fs p n, In n (glob_files fmts fs p) ->
+  count_dots n = count_dots (p ++ ".*") /\ supported fmts (ext n) = true /\ wmatch (p ++ ".*") n = true.
+Proof. exact glob_no_dot_cross. Qed.
+Print Assumptions C03_wildcard.
+
+(* base first: the loaded chain ends with the file itself, everything it inherits from comes before it *)
+Theorem C03_base_first : forall f fmts fs path cid chain files, load_chain f fmts fs path cid chain = Ok files ->
+  exists pre self, files = pre ++ [self] /\ lf_id self = match cid with Some c => (c ++ "|" ++ path)%string | None => path end.
+Proof. exact load_self_last. Qed.
+Print Assumptions C03_base_first.
+
+(* a $parent cycle is an error *)
+Theorem C03_cycle : forall f fmts fs path cid chain, In path chain -> load_chain (S f) fmts fs path cid chain = Err ECircular.
+Proof. exact load_cycle. Qed.
+Print Assumptions C03_cycle.
+
+(* several command-line inputs are applied left to right; with -P each contributes only itself, $parent ignored *)
+Theorem C03_cli_order : forall fmts fs skip i r next fmt, in_model_name i = true ->
+  cli_inputs fmts fs skip (i :: r) next fmt =
+    bind (file_match fmts fs i) (fun rf =>
+      let fmt' := match fmt with Some x => Some x | None => Some (snd rf) end in
+      bind (if skip
+            then match resolve (link_fuel fs) fs (fst rf) with
+                 | Some (_, Ok docs) =>
+                     if supported fmts (ext (fst rf))
+                     then Ok [{| lf_id := fst rf; lf_docs := map (fun d => match d with VMap m => VMap (remove "$parent" m) | _ => d end) docs; lf_parent_files := [] |}]
+                     else Err EUnknownFormat
+                 | Some (_, Err _) => Err EUnmarshal
+                 | None => Err EMissingFile
+                 end
+            else load_chain (2 + List.length fs) fmts fs (fst rf) None [])
+        (fun files => let ops_nx := merge_files_ops files next in
+           bind (cli_inputs fmts fs skip r (snd ops_nx) fmt') (fun rest => Ok (fst ops_nx ++ fst rest, snd rest)))).
+Proof. exact cli_inputs_cons. Qed.
+Print Assumptions C03_cli_order.
+
+(* non-vacuity: a three-level filename chain under mixed extensions loads base first *)
+Example C03_chain_example :
+  let fs := [("a.yaml", FReg (Ok [VMap [("x", VInt 1)]])); ("a.b.json", FReg (Ok [VMap [("y", VInt 2)]])); ("a.b.c.toml", FReg (Ok [VMap [("z", VInt 3)]]))] in
+  option_map (map lf_id) (match load_chain 5 ["json"; "toml"; "yaml"] fs "a.b.c.toml" None [] with Ok l => Some l | Err _ => None end)
+  = Some ["a.b.c.toml|a.b.json|a.yaml"; "a.b.c.toml|a.b.json"; "a.b.c.toml"].
+Proof. reflexivity. Qed.
